@@ -1917,3 +1917,161 @@ B("S07-C06-visible-counter-aliases-generator", "C06", "C06:R-C06.4:db::Database:
             write_buffer_size: WriteBufferManager::default(),
             snapshot_tracker: SnapshotTracker::new(visible_seqno),
             journal: active_journal,""")
+
+# ======================================================================== more behaviour-preserving refactors
+E2("EQ-seqno-helper-fn", [
+    (KS, """        let seqno = self.supervisor.seqno.next();
+
+        journal_writer
+            .write_raw(self.id, &key, &value, lsm_tree::ValueType::Value, seqno)""",
+     """        let seqno = self.next_seqno();
+
+        journal_writer
+            .write_raw(self.id, &key, &value, lsm_tree::ValueType::Value, seqno)"""),
+    (KS, """    fn check_write_halt(&self) {""", """    fn next_seqno(&self) -> crate::SeqNo {
+        self.supervisor.seqno.next()
+    }
+
+    fn check_write_halt(&self) {""")])
+E2("EQ-journal-lock-helper-fn", [
+    (KS, """        let key = key.into();
+
+        let mut journal_writer = self.supervisor.journal.get_writer()?;
+
+        // IMPORTANT: Check the poisoned flag after getting journal mutex, otherwise TOCTOU
+        if self.is_poisoned.is_poisoned() {
+            return Err(crate::Error::Poisoned);
+        }
+
+        let seqno = self.supervisor.seqno.next();
+
+        journal_writer
+            .write_raw(self.id, &key, &[], lsm_tree::ValueType::Tombstone, seqno)""",
+     """        let key = key.into();
+
+        let mut journal_writer = self.lock_journal()?;
+
+        // IMPORTANT: Check the poisoned flag after getting journal mutex, otherwise TOCTOU
+        if self.is_poisoned.is_poisoned() {
+            return Err(crate::Error::Poisoned);
+        }
+
+        let seqno = self.supervisor.seqno.next();
+
+        journal_writer
+            .write_raw(self.id, &key, &[], lsm_tree::ValueType::Tombstone, seqno)"""),
+    (KS, """    fn check_write_halt(&self) {""", """    fn lock_journal(&self) -> crate::Result<MutexGuard<'_, crate::journal::writer::Writer>> {
+        self.supervisor.journal.get_writer()
+    }
+
+    fn check_write_halt(&self) {""")])
+E("EQ-batch-len-local", BATCH,
+  "        journal_writer\n            .write_batch(self.data.iter(), self.data.len(), batch_seqno)",
+  "        let item_count = self.data.len();\n        journal_writer\n            .write_batch(self.data.iter(), item_count, batch_seqno)")
+E("EQ-open-uses-get", TRACKER,
+  """        let _lock = self.gc_lock.read().expect("lock is poisoned");
+
+        let seqno = self.seqno.get();
+
+        self.data
+            .entry(seqno)""",
+  """        let _lock = self.gc_lock.read().expect("lock is poisoned");
+
+        let seqno = self.get();
+
+        self.data
+            .entry(seqno)""")
+E("EQ-maintenance-match", JMAN,
+  """                    let Some(keyspace_seqno) = item.keyspace.tree.get_highest_persisted_seqno()
+                    else {
+                        return Ok(());
+                    };
+
+                    if keyspace_seqno < item.lsn {
+                        log::trace!(
+                            "Keyspace {:?} not flushed enough to evict journal",
+                            item.keyspace.name,
+                        );
+                        return Ok(());
+                    }""",
+  """                    match item.keyspace.tree.get_highest_persisted_seqno() {
+                        None => return Ok(()),
+                        Some(keyspace_seqno) if item.lsn > keyspace_seqno => {
+                            log::trace!(
+                                "Keyspace {:?} not flushed enough to evict journal",
+                                item.keyspace.name,
+                            );
+                            return Ok(());
+                        }
+                        Some(_) => {}
+                    }""")
+E("EQ-iter-next-question-mark", "src/iter.rs",
+  "        self.iter.next().map(Guard)", "        let inner = self.iter.next()?;\n        Some(Guard(inner))")
+E("EQ-insert-id-local", KS,
+  """        journal_writer
+            .write_raw(self.id, &key, &value, lsm_tree::ValueType::Value, seqno)""",
+  """        let own_id = self.id;
+        journal_writer
+            .write_raw(own_id, &key, &value, lsm_tree::ValueType::Value, seqno)""")
+E("EQ-with-commit-ts-local", ORACLE,
+  "        committed_txns.insert(self.snapshot_tracker.get(), conflict_checker);",
+  "        let commit_ts = self.snapshot_tracker.get();\n        committed_txns.insert(commit_ts, conflict_checker);")
+E("EQ-check-version-match", DB,
+  """            if version != FormatVersion::V3 {
+                return Err(crate::Error::InvalidVersion(Some(version)));
+            }""",
+  """            match version {
+                FormatVersion::V3 => {}
+                other => return Err(crate::Error::InvalidVersion(Some(other))),
+            }""")
+E("EQ-ssi-contains-key-local", OWT,
+  """        let contains = self.inner.contains_key(keyspace, key.as_ref())?;
+
+        self.cm.mark_read(keyspace.id, key.as_ref().into());
+
+        Ok(contains)""",
+  """        let k = key.as_ref();
+        let contains = self.inner.contains_key(keyspace, k)?;
+        let ks_id = keyspace.id;
+
+        self.cm.mark_read(ks_id, k.into());
+
+        Ok(contains)""")
+E("EQ-persist-sync-helper", WRITER,
+  """            PersistMode::SyncAll => self.file.get_mut().sync_all().inspect_err(|e| {
+                log::error!(
+                    "Failed to fsync journal file at {}: {e:?}",
+                    self.path.display(),
+                );
+            }),""",
+  """            PersistMode::SyncAll => {
+                let file = self.file.get_mut();
+                let res = file.sync_all();
+                if let Err(e) = &res {
+                    log::error!("Failed to fsync journal file at {}: {e:?}", self.path.display());
+                }
+                res
+            }""")
+E("EQ-delete-keyspace-name-local", DB,
+  """        self.meta_keyspace.remove_keyspace(&handle.name)?;
+
+        handle
+            .is_deleted
+            .store(true, std::sync::atomic::Ordering::Release);""",
+  """        let name = handle.name.clone();
+        self.meta_keyspace.remove_keyspace(&name)?;
+
+        let flag = &handle.is_deleted;
+        flag.store(true, std::sync::atomic::Ordering::Release);""")
+E("EQ-recover-set-local", DB,
+  """        db.supervisor
+            .snapshot_tracker
+            .set(db.supervisor.seqno.get());""",
+  """        let next_seqno = db.supervisor.seqno.get();
+        db.supervisor.snapshot_tracker.set(next_seqno);""")
+E("EQ-drop-manifest-early-return", KS,
+  """        if self.is_deleted.load(std::sync::atomic::Ordering::Acquire) {
+            let path = &self.tree.tree_config().path;""",
+  """        let deleted = self.is_deleted.load(std::sync::atomic::Ordering::Acquire);
+        if deleted {
+            let path = &self.tree.tree_config().path;""")
